@@ -77,13 +77,14 @@ def step_kinds(desc, out=None):
 
 # ---------------------------------------------------------------- fake representation (integers)
 
-class IntRep:
+from geneticengine.representations.api import Representation, RepresentationWithCrossover, RepresentationWithMutation
+
+
+class IntRep(Representation, RepresentationWithMutation, RepresentationWithCrossover):
     """A tiny real implementation of the representation API over integers: cheap individuals
     for step-level checks.  Programs are IntProg objects (so fitness sees a 'program')."""
 
     def __init__(self):
-        from geneticengine.representations.api import Representation, RepresentationWithCrossover, RepresentationWithMutation
-
         self.created = 0
 
     def create_genotype(self, random, **kwargs):
@@ -101,12 +102,7 @@ class IntRep:
 
 
 def make_intrep():
-    from geneticengine.representations.api import Representation, RepresentationWithCrossover, RepresentationWithMutation
-
-    class _IntRep(IntRep, Representation, RepresentationWithMutation, RepresentationWithCrossover):
-        pass
-
-    return _IntRep()
+    return IntRep()
 
 
 class IntProg:
